@@ -54,6 +54,7 @@ class Outcome:
         self.py_fail = None       # (signature, what, step index)
         self.trace = []           # per step: 'ok' / exception class name
         self.notes = {}
+        self.aei_hit = None       # arr[i] raised on an element with no coordinates at all
 
 
 def _probe_ints(rng, n):
@@ -124,6 +125,10 @@ def run_history(kind, subtype, els, steps, rng, quant=True, probes=True):
                     sc = arr[i]
                     pr.append((int(i), C.Rec('Ok', U.elem_term(kind, U.scalar_to_py(kind, sc)))))
                 except Exception as e:  # noqa: BLE001
+                    if orig2 is not None and -n <= i < n and orig2[i] is not None \
+                            and U.is_aei(kind, els[orig2[i]]):
+                        out.aei_hit = (f'arr[{i}]', type(e).__name__, str(e)[:120])
+                        continue
                     t = U.exc_term(e)
                     pr.append((int(i), t if t is not None else C.Rec('TypeError')))
         obs.append((U.step_term(st), C.Rec('Ok', rp), pr))
@@ -134,8 +139,13 @@ def run_history(kind, subtype, els, steps, rng, quant=True, probes=True):
                                f'array of length {len(arr)}: {st}', k)
             break
         orig = orig2
+        if out.notes.pop('mutated_now', False) and out.py_fail is None:
+            out.py_fail = ('index-argument-mutated',
+                           f'{kind}: the index array passed to {st["op"]} ({st.get("form")}) was '
+                           f'modified by the call', k)
         if out.py_fail is None:
-            f = python_side(kind, subtype, els, arr, orig, quant, lambda: _src_q(kind, els, subtype))
+            f = python_side(kind, subtype, els, arr, orig, quant, lambda: _src_q(kind, els, subtype),
+                            out)
             if f is not None:
                 out.py_fail = (f[0], f'{kind} after step {k} {st}: {f[1]}', k)
     out.case = (U.elems_term(kind, els), rep0, obs)
@@ -155,17 +165,26 @@ def _src_q(kind, els, subtype):
     return _SRC_CACHE[key]
 
 
-def python_side(kind, subtype, els, arr, orig, quant, src_q):
+def python_side(kind, subtype, els, arr, orig, quant, src_q, out=None):
     """None when everything agrees, else (signature, what)"""
     want = [None if o is None else els[o] for o in orig]
+    aei = any(U.is_aei(kind, e) for e in want)
     if len(arr) != len(want):
         return ('length-differs', f'len {len(arr)} instead of {len(want)}')
     got = U.array_to_py(kind, arr)
     for i, (a, b) in enumerate(zip(got, want)):
         if not U.same_elem(a, b):
             return ('elements-differ', f'element {i} is {a!r}, expected {b!r}')
-    it = [U.scalar_to_py(kind, x) for x in arr]
-    if len(it) != len(want) or not all(U.same_elem(a, b) for a, b in zip(it, want)):
+    try:
+        it = [U.scalar_to_py(kind, x) for x in arr]
+    except Exception as e:  # noqa: BLE001
+        if aei and out is not None:
+            out.aei_hit = ('list(arr)', type(e).__name__, str(e)[:120])
+            it = None
+        else:
+            return (f'iteration-raises:{type(e).__name__}', f'list(arr) raised {type(e).__name__}: {e}')
+    if it is not None and (len(it) != len(want)
+                           or not all(U.same_elem(a, b) for a, b in zip(it, want))):
         return ('iteration-differs', f'list(arr) gives {it!r}, expected {want!r}')
     if not quant:
         return None
@@ -195,7 +214,10 @@ def python_side(kind, subtype, els, arr, orig, quant, src_q):
             if not (len(eq) == len(want) and bool(np.all(eq))):
                 return ('eq-differs', f'arr == fresh gives {np.asarray(eq).tolist()!r}')
         except Exception as e:  # noqa: BLE001
-            return ('eq-raises', f'arr == fresh raised {type(e).__name__}: {e}')
+            if aei and out is not None:
+                out.aei_hit = ('arr == other', type(e).__name__, str(e)[:120])
+            else:
+                return ('eq-raises', f'arr == fresh raised {type(e).__name__}: {e}')
     return None
 
 
@@ -210,7 +232,35 @@ def rand_source(rng, kind, subtype):
                           missing_p=rng.choice([0.15, 0.3, 0.0]), empty_p=0.12)
     if n and rng.random() < 0.04:
         els = [None] * n
+    # elements with no coordinate at all below a non-empty outer level make arr[i] raise
+    # (finding getitem-raises:all-empty-inner); they get their own stream, see run()
+    els = [[] if U.is_aei(kind, e) else e for e in els]
     return els
+
+
+AEI = {'multiline': [[[]], [[], []], [[], [], []]],
+       'polygon': [[[]], [[], []]],
+       'multipolygon': [[[[]]], [[[]], []], [[]], [[[], []]], [[[]], [[]]]]}
+
+
+def aei_history(rng, kind, subtype):
+    """a history over a source holding all-empty-inner elements; no step that needs a scalar"""
+    els = rand_source(rng, kind, subtype)
+    for _ in range(rng.randint(1, 2)):
+        els.insert(rng.randint(0, len(els)), rng.choice(AEI[kind]))
+    orig = list(range(len(els)))
+    steps = []
+    for _ in range(rng.randint(1, 6)):
+        st = U.rand_step(rng, len(orig))
+        if st['op'] == 'int' or st.get('form') in ('iter', 'series_iloc') and st['op'] == 'int' \
+                or st.get('form') == 'iter' or (st['op'] == 'take' and st['args'][2] == 'geom'):
+            continue
+        steps.append(st)
+        try:
+            orig = U.track(orig, st)
+        except Exception:
+            pass
+    return els, steps or [{'op': 'copy', 'args': None, 'form': 'copy'}]
 
 
 def rand_history(rng, kind, subtype, maxlen=8):
@@ -394,9 +444,21 @@ def run(rep):
         els, steps = rand_history(rng, kind, st)
         hist.append((kind, st, els, steps, True))
 
+    naei = 45 if tier == 'quick' else 1500
+    hist.append(('polygon', 'float64', [[[]]], [{'op': 'copy', 'args': None, 'form': 'copy'}], True))
+    hist.append(('multiline', 'float64', [[[], []]], [{'op': 'copy', 'args': None, 'form': 'copy'}], True))
+    hist.append(('multipolygon', 'float64', [[[[]]]], [{'op': 'copy', 'args': None, 'form': 'copy'}], True))
+    for j in range(naei):
+        kind = ['multiline', 'polygon', 'multipolygon'][j % 3]
+        st = rng.choice(subtypes)
+        els, steps = aei_history(rng, kind, st)
+        hist.append((kind, st, els, steps, True))
+    rep.extra['histories_all_empty_inner'] = naei + 3
+
     cases, expected, metas = [], [], []
     pyfails = []
     mutated = 0
+    aei_first = None
     for kind, st, els, steps, quant in hist:
         out = run_history(kind, st, els, steps, rng, quant=quant)
         rep.evaluations += 1
@@ -407,6 +469,12 @@ def run(rep):
         for s in steps:
             rep.count('op:' + s['op'])
         mutated += out.notes.get('index_array_mutated', 0)
+        if any(U.is_aei(kind, e) for e in els):
+            rep.count('class:all_empty_inner')
+        if out.aei_hit is not None:
+            rep.count('class:all_empty_inner_getitem_raised')
+            if aei_first is None:
+                aei_first = (kind, st, els, steps, out.aei_hit)
         if 'ok' in out.trace and any(e is not None for e in els):
             rep.nontrivial((kind, st, repr(els), repr(steps)))
         meta = {'kind': kind, 'subtype': st, 'elements': els, 'steps': steps}
@@ -418,6 +486,14 @@ def run(rep):
     rep.extra['index_array_mutated'] = mutated
     rep.extra['histories_enumerated'] = len(hist) - nrand
     rep.extra['histories_random'] = nrand
+
+    if aei_first is not None:
+        kind, st, els, steps, hit = aei_first
+        rep.violation('getitem-raises:all-empty-inner',
+                      f'{kind}: {hit[0]} raised {hit[1]}({hit[2]!r}) on an array holding an element '
+                      f'that is non-empty at the outer level but has no coordinates '
+                      f'(e.g. PolygonArray([[[]]], dtype="float64")[0]); the model returns the element',
+                      {'kind': kind, 'subtype': st, 'elements': els, 'steps': steps})
 
     # ---- the model, inside Coq
     bad = C.coq_mismatches(IMPORTS, FN, CASE_TY, RES_TY, cases, expected, shard=120)
@@ -469,6 +545,9 @@ def replay(rep, rp):
     ok = True
     if out.py_fail is not None:
         print('python-side:', out.py_fail)
+        ok = False
+    if out.aei_hit is not None:
+        print('scalar access raised on an all-empty-inner element:', out.aei_hit)
         ok = False
     if out.case is not None:
         codes = coq_codes([out.case])[0]
